@@ -151,7 +151,7 @@ class _Checker:
                 self._vector(r, obs, pending)
         self._resolve(pending)
 
-    def _box_checks(self, req, typ, cols, rec, out):
+    def _box_checks(self, req, typ, cols, rec, out, loose_typ=None):
         ctx = self.ctx
         b = _parse_box(out[0])
         zero = all(v == 0 for c in cols for v in c)
@@ -159,6 +159,8 @@ class _Checker:
         if isinstance(b, str):
             self._viol("setBox:%s:exception" % req, "setBox threw: %s" % b, rep)
             return
+        if loose_typ is not None:
+            typ = loose_typ
         if b["type"] != typ:
             self._viol("setBox:%s:type" % req, "getBoxType()=%s, expected %s for box %s requested %s" %
                           (b["type"], typ, cols, req), rep)
@@ -304,11 +306,18 @@ class _Checker:
         for i, hrec in enumerate(hists):
             cmds = ["newtop"]
             for st in hrec["h"]:
-                cmds.append(_box_cmd(st["req"], st["box"], "setbox"))
-                if st["typ"] != "open":
-                    cmds.append("short")
+                if st["req"] == "cleanup":
+                    cmds.append("cleanup")
+                else:
+                    cmds.append(_box_cmd(st["req"], st["box"], "setbox"))
+                    if st["typ"] != "open" and not st["loose"]:
+                        cmds.append("short")
                 for p in st["probes"]:
                     cmds.append(_pair_cmd(p["pairs"][0]["i"], p["pairs"][0]["j"]))
+                # the same probe through a Clone() of the boundary and through CopyTopologyData; the stored
+                # matrix is unspecified after Cleanup() (flag 0: compare type and connection vector only)
+                cmds.append("copies %s %s %d" % (" ".join(_fmt(v) for v in (1, -2, 3)), " ".join(_fmt(v) for v in (4, 0, 2)),
+                                               0 if st["req"] == "cleanup" else 1))
             items.append((i, cmds))
         results, crashes = vlib.run_items(self.exe, items)
         self.prefix = "hist:"
@@ -329,13 +338,44 @@ class _Checker:
                 for n, st in enumerate(hrec["h"]):
                     self.note = "after setBox history %s (call %d): " % (
                         [(s_["req"], s_["typ"], s_["box"]) for s_ in hrec["h"][:n + 1]], n + 1)
-                    nshort = 1 if st["typ"] != "open" else 0
-                    self._box_checks(st["req"], st["typ"], st["box"], st, out[k:k + 1 + nshort])
-                    k += 1 + nshort
+                    self.stats["hist_" + ("loose" if st["loose"] else st["req"])] = \
+                        self.stats.get("hist_" + ("loose" if st["loose"] else st["req"]), 0) + 1
+                    if st["req"] == "cleanup":
+                        ln = out[k][0] if out[k] else "exc no output"
+                        if ln != "type open":
+                            self._viol("Cleanup:type", "after Topology::Cleanup(): %s, expected type open" % ln, None)
+                        k += 1
+                    elif st["loose"]:
+                        # explicit type not matching the matrix: type, stored matrix and volume only
+                        self._box_checks(st["req"], st["typ"], st["box"], dict(st, typ="open", hn2=0), out[k:k + 1],
+                                         loose_typ=st["typ"])
+                        k += 1
+                    else:
+                        nshort = 1 if st["typ"] != "open" else 0
+                        self._box_checks(st["req"], st["typ"], st["box"], st, out[k:k + 1 + nshort])
+                        k += 1 + nshort
                     for p in st["probes"]:
                         vec = dict(p, box=st["box"], req=st["req"], typ=st["typ"])
                         self._vector(vec, [_parse_pair(out[k])], pending)
                         k += 1
+                    # Clone() and CopyTopologyData must answer exactly like the original
+                    lines = {ln.split()[0]: ln.split()[1:] for ln in out[k] if ln.split()}
+                    k += 1
+                    self.stats["copies"] = self.stats.get("copies", 0) + 1
+                    if "exc" in lines or "orig" not in lines:
+                        self._viol("copies:exception", "Clone/CopyTopologyData probe failed: %s" % out[k - 1], None)
+                    else:
+                        if lines.get("clone") != lines["orig"]:
+                            self._viol("Clone:differs", "BoundaryCondition::Clone() answers %s, the original %s "
+                                       "(type, volume, matrix, shortest height, connection vector)"
+                                       % (lines.get("clone"), lines["orig"]), None)
+                        if lines.get("copy") != lines["orig"]:
+                            self._viol("CopyTopologyData:differs", "the copied Topology answers %s, the original %s "
+                                       "(type, volume, matrix, shortest height, connection vector)"
+                                       % (lines.get("copy"), lines["orig"]), None)
+                        if lines.get("copybeads") != ["2"]:
+                            self._viol("CopyTopologyData:beads", "copied Topology has %s beads, expected 2"
+                                       % lines.get("copybeads"), None)
             self._resolve(pending)
         finally:
             self.prefix, self.rep, self.note = "", None, ""
